@@ -64,9 +64,12 @@ PROPS = {
         "rule": "one generated case drives a MemoryStore and a SQLiteStore in lock-step on one fake clock; every result (error class, counts, conflict "
                 "lists, returned items modulo generated-id/lease-id bijection) and the full contents are compared after every step; a case is cut where "
                 "the documented free choice among equally eligible messages was actually taken differently; non-trivial = >=1 step failed or conflicted "
-                "on both backends, >=8 steps, not cut before step 8",
+                "on both backends, >=8 steps, not cut before step 8. long-history tier: 300-2100 messages (strictly increasing received times) pass through "
+                "both backends while 1-4 stay leased / dead / canceled, are released by nack, expiry, requeue or resume, and a generated tail of 0-12 ordinary "
+                "operations follows, all compared step by step; non-trivial there = >=1024 messages and no cut",
         "assumptions": [POSTGRES, SAMPLED, "memory-only admission guards (memory pressure, delivered-retention depth guard) are excluded by configuration as documented"],
-        "parts": [{"engine": "qmodel", "test": "TestProp_C13_LockStep", "quick": 2000, "thorough": 240000}],
+        "parts": [{"engine": "qmodel", "test": "TestProp_C13_LockStep", "quick": 2000, "thorough": 240000},
+                  {"engine": "qmodel", "test": "TestProp_C13_LongLockStep", "quick": 48, "thorough": 1600, "shards": {"quick": 8}}],
     },
     "C14": {
         "rule": "store tier: populations over routes x targets x all five states with tie timestamps, then id-list and by-filter mutations "
